@@ -10,7 +10,7 @@ def parseUDToJson(subType, version, data):
     verif_fixture.CALLS.append(('ud', NAME, subType, version, raw))
     beh = 'nondict'
     if beh == 'prog':
-        beh = {0: 'ok', 1: 'nondict', 2: 'none', 3: 'raise', 4: 'importerror'}.get(raw[0] % 8 if raw else 0, 'ok')
+        beh = {0: 'ok', 1: 'nondict', 2: 'none', 3: 'raise', 4: 'importerror', 5: 'raise_empty'}.get(raw[0] % 8 if raw else 0, 'ok')
     if beh == 'ok':
         return json.dumps({'Fixture Parser': NAME, 'Fixture Subtype': subType, 'Fixture Version': version,
                            'Fixture Payload': raw.hex()})
@@ -20,6 +20,8 @@ def parseUDToJson(subType, version, data):
         return None
     if beh == 'raise':
         raise ValueError('fixture parser %s refuses this section' % NAME)
+    if beh == 'raise_empty':
+        raise ValueError          # an exception whose message is empty
     if beh == 'importerror':
         import verif_fixture_missing_dependency   # noqa: F401  (does not exist)
     raise RuntimeError('unknown behaviour')
